@@ -29,6 +29,10 @@ modelled Rust functions, with the `hostPanic` branch / guard lemma it maps to) m
 no construct without a disposition, none vanished. -/
 theorem panic_inventory_matches : Gen.VMPanicSites.inventoryOk = true := rfl
 
+/-- The `QueryStart`/`QueryNext`/`Update` arms of `step` have a shape the translator recognises
+(the model follows the generated flags `queryNextFilters`, `updateGivenOnly`). -/
+theorem arms_recognised : armsRecognised = true := rfl
+
 /-- The current source has no `todo!()` for `Next`/`Last` … -/
 theorem nextLast_fixed : nextLastTodo = false := rfl
 /-- … and bounds the `MStructSet` allocation. -/
